@@ -148,8 +148,25 @@ func scenarioC10(r *Run) {
 				r.Accepted++
 			}
 		}
-		for _, s := range pl.p.Sessions {
+		for _, id := range sortedSessionIDs(pl.p) {
+			s := pl.p.Sessions[id]
 			pl.fseids[s.UPSEID] = true
+			if !many && len(s.PDRs) > 0 && r.Ch.Choose(8, "session-without-pdrs") == 1 {
+				// a modification takes every PDR of the session away: its FARs and QERs
+				// are still installed and must go with the association like everything else
+				var ids []uint16
+				for _, pd := range s.PDRs {
+					ids = append(ids, pd.ID)
+				}
+				if mr := pl.p.Modify(s, &ModSpec{Tag: "rP:all", RemovePDR: ids}); mr.Accepted {
+					r.Probe("session-left-without-pdrs-before-the-teardown")
+				}
+				if r.W.Bess.Faults.SlowDen > 0 {
+					// (a delete the plug-in gave up waiting for is applied late: let it
+					// arrive before the entries of the associations are listed)
+					r.Sim.RunFor(r.W.Bess.Faults.SlowBy + 300*time.Millisecond)
+				}
+			}
 		}
 	}
 	// which keys belong to which peer (by fseid carried in the entries)
